@@ -1,6 +1,7 @@
 //go:build verif
 
 //verif:dir p2p/host/basic
+//verif:also C03 VerifC04eNewStream
 //verif:subst p2p/host/basic github.com/multiformats/go-multistream.SelectOneOf !verifSelectOneOf
 //verif:obligation C04.e BasicHost.NewStream: whenever the call fails after the swarm stream was opened (identify wait cancelled, peerstore error, SetProtocol refused on the known-protocol path, negotiation error, SetProtocol refused after negotiation) the stream is reset, so its scope and the muxed stream are released; when it fails before a stream exists nothing is leaked; on success the stream is not reset and reports one of the requested protocols, set before it is returned
 //verif:bound one NewStream call; request list of 2 protocol IDs; every stage outcome symbolic
@@ -41,11 +42,11 @@ func (s *vC04stream) SetProtocol(p protocol.ID) error {
 	s.proto = p
 	return nil
 }
-func (s *vC04stream) Reset() error                                      { s.resets++; return nil }
-func (s *vC04stream) ResetWithError(network.StreamErrorCode) error      { s.resets++; return nil }
-func (s *vC04stream) Read(b []byte) (int, error)                        { return 0, io.EOF }
-func (s *vC04stream) Write(b []byte) (int, error)                       { return len(b), nil }
-func (s *vC04stream) Close() error                                      { return nil }
+func (s *vC04stream) Reset() error                                 { s.resets++; return nil }
+func (s *vC04stream) ResetWithError(network.StreamErrorCode) error { s.resets++; return nil }
+func (s *vC04stream) Read(b []byte) (int, error)                   { return 0, io.EOF }
+func (s *vC04stream) Write(b []byte) (int, error)                  { return len(b), nil }
+func (s *vC04stream) Close() error                                 { return nil }
 
 type vC04conn struct{ network.Conn }
 
@@ -97,10 +98,10 @@ type vC04ids struct {
 	ch chan struct{}
 }
 
-func (i *vC04ids) IdentifyConn(network.Conn)                     {}
-func (i *vC04ids) IdentifyWait(network.Conn) <-chan struct{}     { return i.ch }
-func (i *vC04ids) Start()                                        {}
-func (i *vC04ids) Close() error                                  { return nil }
+func (i *vC04ids) IdentifyConn(network.Conn)                 {}
+func (i *vC04ids) IdentifyWait(network.Conn) <-chan struct{} { return i.ch }
+func (i *vC04ids) Start()                                    {}
+func (i *vC04ids) Close() error                              { return nil }
 
 var vC04pids = []protocol.ID{"/proto/a", "/proto/b"}
 
